@@ -2,6 +2,8 @@
 
 package validate
 
+import "github.com/go-openapi/spec"
+
 // C13 — numeric verdicts depend on the number, not on the Go type that carries it.
 //
 // Oracles are the mathematical definitions written over the symbolic inputs. Bound of every
@@ -144,5 +146,85 @@ func HarnessC13MultipleOfInt() {
 		verifAssert(got == (d%f != 0), "multipleof-uint")
 		verifAssert(MultipleOfUint("p", "q", d, 0) != nil, "multipleof-uint-zero-factor-rejected")
 	}
+	verifReach("end")
+}
+
+// HarnessC13Validators: the same verdict through schema validation and through a parameter
+// validator, for a value of every Go numeric kind (fully symbolic within the carrier, |x| <= 2^53)
+// against picked bounds (integral and fractional), inclusive and exclusive.
+func HarnessC13Validators() {
+	k := verifChoose(12)
+	val, fv := verifNumOfKind(k)
+	m := verifPickFloat(-3, 0, 2, 2.5, 100)
+	excl := verifBool()
+	isMax := verifBool()
+	var want bool // valid
+	s := spec.Schema{}
+	p := &spec.Parameter{}
+	p.Name, p.In = "q", "query"
+	if k <= 9 {
+		p.Type = "integer"
+	} else {
+		p.Type = "number"
+	}
+	if isMax {
+		s.Maximum, s.ExclusiveMaximum = &m, excl
+		p.Maximum, p.ExclusiveMaximum = &m, excl
+		want = verifOr(verifAnd(!excl, fv <= m), verifAnd(excl, fv < m))
+	} else {
+		s.Minimum, s.ExclusiveMinimum = &m, excl
+		p.Minimum, p.ExclusiveMinimum = &m, excl
+		want = verifOr(verifAnd(!excl, fv >= m), verifAnd(excl, fv > m))
+	}
+	verifObserve("kind", kindNames[k])
+	gotSchema := NewSchemaValidator(&s, nil, "", nil).Validate(val).IsValid()
+	verifAssert(gotSchema == want, "schema-validation-verdict-is-exact-for-every-kind")
+	// a fractional bound is not representable in an integer-typed definition (the library reports
+	// the definition itself): outside the quantifier for the typed path
+	if !(k <= 9 && m != float64(int64(m))) {
+		res := NewParamValidator(p, nil).Validate(val)
+		gotParam := res == nil || res.IsValid()
+		verifAssert(gotParam == want, "parameter-validation-verdict-is-exact-for-every-kind")
+	}
+	verifReach("end")
+}
+
+// HarnessC13MultipleOfValidators: multipleOf through schema validation for every integer kind
+// (picked small values, so that every carrier holds them exactly) and integral / fractional factors.
+func HarnessC13MultipleOfValidators() {
+	k := verifChoose(10)
+	x := verifPickInt(0, 3, 4, 6, 7, 100)
+	var val interface{}
+	switch k {
+	case 0:
+		val = int8(x)
+	case 1:
+		val = int16(x)
+	case 2:
+		val = int32(x)
+	case 3:
+		val = x
+	case 4:
+		val = int(x)
+	case 5:
+		val = uint8(x)
+	case 6:
+		val = uint16(x)
+	case 7:
+		val = uint32(x)
+	case 8:
+		val = uint64(x)
+	default:
+		val = uint(x)
+	}
+	f := verifPickFloat(1, 2, 3, 0.5, 1.5)
+	s := spec.Schema{}
+	s.MultipleOf = &f
+	got := NewSchemaValidator(&s, nil, "", nil).Validate(val).IsValid()
+	q := float64(x) / f
+	want := q == float64(int64(q))
+	verifObserve("kind", kindNames[k])
+	verifAssert(got == want, "multipleof-verdict-is-exact-for-every-integer-kind")
+	verifAssert((MultipleOfNativeType("p", "q", val, f) == nil) == want, "multipleof-native-helper-is-exact")
 	verifReach("end")
 }
